@@ -21,8 +21,23 @@ POINT_IDS = ["key.alloc.readhead", "key.alloc.readnext", "key.alloc.cas",
              "key.dealloc.check", "key.dealloc.readhead", "key.dealloc.cas"]
 
 
-def unit_flags():
-    return vlib.lib_cflags() + ["-O0", "-g", "-I" + H, "-Wl,--wrap=real_malloc", "-Wl,--wrap=real_free"]
+VARIANT = {"gen": False, "lock": False}       # set by run()/replay() from the source text
+
+
+def source_variant():
+    """which variant of the source is this?  (gen: tree_get/_set take the key allocator, i.e. entries carry a
+    generation; lock: key_allocator_alloc takes a spin lock).  Decides how the harness is compiled and which
+    model variant the driver runs; whether the two FINDINGS are present is probed on the running code."""
+    f = open(os.path.join(vlib.REPO, "src", "myth_tls_func.h"), errors="replace").read()
+    gen = bool(re.search(r"myth_tls_tree_get\s*\([^)]*myth_tls_key_allocator_t", f))
+    m = re.search(r"\nmyth_tls_key_allocator_alloc\s*\(.*?\n}\n", f, re.S)
+    lock = bool(m and "myth_spin_lock_body" in m.group(0))
+    return gen, lock
+
+
+def unit_flags(gen=False, lock=False):
+    return vlib.lib_cflags() + ["-O0", "-g", "-I" + H, "-Wl,--wrap=real_malloc", "-Wl,--wrap=real_free",
+                                "-DC10_GEN=%d" % int(gen), "-DC10_LOCK=%d" % int(lock)]
 
 
 
@@ -42,10 +57,10 @@ def get_lib(ctx):
     raise vlib.BuildError("library archive vanished repeatedly: %s" % last)
 
 
-def build(ctx, want_lib=True):
+def build(ctx, want_lib=True, gen=False, lock=False):
     lib = get_lib(ctx)
     libs = [lib, "-lpthread", "-ldl", "-lrt"]
-    unit = vlib.cc(os.path.join(ctx.dir, "c10_tls_unit"), [os.path.join(H, "c10_tls_unit.c")], flags=unit_flags(), libs=libs)
+    unit = vlib.cc(os.path.join(ctx.dir, "c10_tls_unit"), [os.path.join(H, "c10_tls_unit.c")], flags=unit_flags(gen, lock), libs=libs)
     libexe = None
     if want_lib:
         libexe = vlib.cc(os.path.join(ctx.dir, "c10_tls_lib"), [os.path.join(H, "c10_tls_lib.c")],
@@ -73,7 +88,9 @@ def tree_case(ops):
     return "tree %d %s" % (len(ops), " ".join(ops))
 
 
-def gen_tree(ctx, n_random):
+def gen_tree(ctx, n_random, gen=False):
+    """gen: the source has generation tags - then "b k" (one more incarnation of index k) is exercised:
+    afterwards key k must read NULL until it is stored under again"""
     r = ctx.rng
     cases = []
     # every single key on its own path, with neighbours on every level, and a dump
@@ -81,6 +98,9 @@ def gen_tree(ctx, n_random):
         v = rnd_val(r) or 7
         nb = [k ^ 1, k ^ 15, k ^ 16, k ^ 48, k ^ 64, k ^ 192, k ^ 256, k ^ 768, (k + 1) % NK]
         ops = ["g %d" % k, "s %d %d" % (k, v), "g %d" % k] + ["g %d" % x for x in nb] + ["d"]
+        if gen:
+            ops += ["b %d" % k, "g %d" % k, "g %d" % (k ^ 1), "s %d %d" % (k ^ 1, v), "b %d" % k, "g %d" % (k ^ 1),
+                    "s %d %d" % (k, v + 1), "g %d" % k, "d"]
         cases.append(tree_case(ops))
     # all 1024 keys in one tree, shuffled, then read back, overwritten, read back
     order = list(range(NK)); r.shuffle(order)
@@ -111,7 +131,9 @@ def gen_tree(ctx, n_random):
         ops = []
         for _ in range(nops):
             c = r.below(10)
-            if c < 5:
+            if gen and r.chance(1, 8):
+                ops.append("b %d" % (r.choice(pool) if r.chance(3, 4) else r.choice(OOR + [r.below(NK)])))
+            elif c < 5:
                 k = r.choice(pool) if r.chance(2, 3) else r.below(NK)
                 ops.append("s %d %d" % (k, rnd_val(r)))
             elif c < 6:
@@ -255,6 +277,10 @@ def gen_conc(ctx, n_random):
 # oracles: the property itself, stated on an output line of the case language
 # ------------------------------------------------------------------------------------------------
 
+def POOL():
+    return 384 if VARIANT["gen"] else 256
+
+
 def parse_dump(tok):
     """origins of the nodes in a dump token: list of (kind, 'P'|'H', number)"""
     return [(m.group(1), m.group(2), int(m.group(3))) for m in re.finditer(r"([IL])([PH])(\d+)", tok)]
@@ -284,6 +310,10 @@ def oracle_tree(case, out):
                 exp = d.get(k, 0) if 0 <= k < NK else 0
                 if got != "v%d" % exp:
                     return "load under key %d returned %s, the thread's last store there was %d" % (k, got, exp)
+            elif w[i] == "b":
+                k = int(w[i + 1]); i += 2; j += 1
+                if VARIANT["gen"]:
+                    d.pop(k, None)          # a new incarnation of the index: nothing stored under it yet
             elif w[i] == "d":
                 i += 1
                 nodes = parse_dump(o[j]); j += 1
@@ -294,9 +324,9 @@ def oracle_tree(case, out):
                         return "two nodes share the memory origin %s%d" % (org, num)
                     seen.add((org, num))
                     if org == "P":
-                        sz = 40 if kind == "I" else 136
-                        if num < 0 or num + sz > 256:
-                            return "pool node at offset %d size %d overruns the 256-byte pool" % (num, sz)
+                        sz = 40 if kind == "I" else (264 if VARIANT["gen"] else 136)
+                        if num < 0 or num + sz > POOL():
+                            return "pool node at offset %d size %d overruns the %d-byte pool" % (num, sz, POOL())
                         spans.append((num, num + sz))
                 spans.sort()
                 for a, b in zip(spans, spans[1:]):
@@ -305,7 +335,7 @@ def oracle_tree(case, out):
             else:
                 return "bad case"
         pp = int(o[j].split("=")[1])
-        if not (0 <= pp <= 256):
+        if not (0 <= pp <= POOL()):
             return "pool pointer %d outside the pool" % pp
     except (IndexError, ValueError) as e:
         return "unparsable output (%s): %s" % (e, out[:120])
@@ -620,16 +650,26 @@ def run_lib(ctx, libexe, args, timeout=120):
 # label translator: the POINT ids of the current source must be the model's labels
 # ------------------------------------------------------------------------------------------------
 
-def check_labels(ctx):
+def check_labels(ctx, lock=False):
     src = open(os.path.join(vlib.REPO, "src", "myth_tls_func.h"), errors="replace").read()
     ids = re.findall(r'MYTH_VERIF_POINT\(\s*"(key\.[^"]+)"', src)
     d = os.path.join(ctx.dir, "labels")
     os.makedirs(d, exist_ok=True)
-    v = ("From Coq Require Import List String ZArith.\nFrom MT Require Import Tls.TlsKeysModel.\n"
-         "Import ListNotations.\nOpen Scope string_scope.\n"
-         "Example labels_match : map label_of [AHead 0%%Z; ANext 0%%Z 0%%Z; ACas 0%%Z 0%%Z 0%%Z; DCheck 0%%Z; "
-         "DHead 0%%Z 0%%Z; DCas 0%%Z 0%%Z 0%%Z] = [%s].\nProof. reflexivity. Qed.\n" %
-         "; ".join('"%s"' % i for i in ids))
+    if lock:
+        spin = open(os.path.join(vlib.REPO, "src", "myth_spinlock_func.h"), errors="replace").read()
+        sids = re.findall(r'MYTH_VERIF_(?:POINT|SPIN)\(\s*"(spin\.[^"]+)"', spin)
+        ids = ids + sorted(set(sids))
+        v = ("From Coq Require Import List String ZArith.\nFrom MT Require Import Tls.TlsKeysModel Tls.TlsKeysLockModel.\n"
+             "Import ListNotations.\nOpen Scope string_scope.\n"
+             "Example labels_match : map llabel_of [LAHead 0%%Z; LANext 0%%Z 0%%Z; LAStore 0%%Z 0%%Z 0%%Z; LDCheck 0%%Z; "
+             "LDHead 0%%Z 0%%Z; LDStore 0%%Z 0%%Z; LTry (Create 0%%Z); LUnlock 0%%Z; LWait (Create 0%%Z)] = [%s].\n"
+             "Proof. reflexivity. Qed.\n" % "; ".join('"%s"' % i for i in ids))
+    else:
+        v = ("From Coq Require Import List String ZArith.\nFrom MT Require Import Tls.TlsKeysModel.\n"
+             "Import ListNotations.\nOpen Scope string_scope.\n"
+             "Example labels_match : map label_of [AHead 0%%Z; ANext 0%%Z 0%%Z; ACas 0%%Z 0%%Z 0%%Z; DCheck 0%%Z; "
+             "DHead 0%%Z 0%%Z; DCas 0%%Z 0%%Z 0%%Z] = [%s].\nProof. reflexivity. Qed.\n" %
+             "; ".join('"%s"' % i for i in ids))
     open(os.path.join(d, "Labels.v"), "w").write(v)
     rc, out = vlib.sh(["coqc", "-Q", vlib.COQ, "MT", "Labels.v"], cwd=d, timeout=300)
     return rc == 0, ids, out[-800:]
@@ -646,13 +686,33 @@ def corpus_cases():
     return [l.strip() for l in open(p) if l.strip() and not l.startswith("#")]
 
 
+def probe(unit):
+    """run the witnesses of the two findings on the code under test; returns
+    (aba_present, stale_present, variant_line, aba_out, stale_out)"""
+    impl, rc, raw = vlib.run_lines([unit], ["variant 0 0", ABA_CASE, STALE_CASE], timeout=120)
+    impl += ["<no output>"] * (3 - len(impl))
+    am, _, _ = oracle_conc(ABA_CASE, impl[1])
+    sm, sflag = oracle_sys(STALE_CASE, impl[2])
+    return (am is not None), (sm is not None and sflag), impl[0], impl[1], impl[2]
+
+
+THEOREMS = {
+    (False, "aba"): "C10_aba_refuted + C10_distinct_concurrent_partial (lock-free free list; guarded)",
+    (True, "aba"): "C10_distinct_concurrent (free list under the spin lock; full strength)",
+    (False, "stale"): "C10_stale_refuted + C10_fresh_key_null_partial (no generation tags; guarded)",
+    (True, "stale"): "C10_fresh_key_null (generation tags; full strength)"}
+
+
 def run(ctx):
     broken, log = ctx.prove("Properties_C10.v", "Properties_C10")
-    unit, libexe, drv = build(ctx)
+    gen, lock = source_variant()
+    VARIANT["gen"], VARIANT["lock"] = gen, lock
+    unit, libexe, drv = build(ctx, gen=gen, lock=lock)
     listed = {f["id"] for f in vlib.known_findings("C10")}
+    aba_present, stale_present, vline, aba_out, stale_out = probe(unit)
     q = not ctx.thorough
-    cases = ["consts"] + corpus_cases()
-    cases += gen_tree(ctx, 300 if q else 4000)
+    cases = ["variant %d %d" % (int(gen), int(lock)), "consts"] + corpus_cases()
+    cases += gen_tree(ctx, 300 if q else 4000, gen)
     cases += gen_keys(ctx, 150 if q else 2500)
     cases += gen_sys(ctx, 200 if q else 3000)
     cases += gen_conc(ctx, 400 if q else 6000)
@@ -667,18 +727,20 @@ def run(ctx):
         k = c.split()[0]
         kinds[k] = kinds.get(k, 0) + 1
         out = impl[i] if i < len(impl) else "<no output>"
-        if k == "consts":
+        if k in ("consts", "variant"):
             continue
         msg, flag = oracle_unit(c, out)
         if k == "conc":
-            _, _, s = oracle_conc(c, out)
+            _, _, st_ = oracle_conc(c, out)
             for kk in cstats:
-                cstats[kk] += s.get(kk, 0)
+                cstats[kk] += st_.get(kk, 0)
             windows += 1 if flag else 0
         if msg:
-            if k == "sys" and flag:
+            # a failure is attributed to a finding only if the finding's own witness fails on this code
+            # (probe) and the failure has the finding's pattern; otherwise it is a violation
+            if k == "sys" and flag and stale_present:
                 known_stale.append((c, out, msg))
-            elif k == "conc" and flag:
+            elif k == "conc" and flag and aba_present:
                 known_aba.append((c, out, msg))
             else:
                 failing.append((c, out, msg))
@@ -687,14 +749,9 @@ def run(ctx):
             mm, mflag = oracle_unit(c, model[i])
             if mm and mflag:
                 repaired.append(c)
-    # disagreements that are only "the library no longer shows a known finding" are notes, not violations
     diffs = [d for d in diffs if d[1] not in repaired]
-
-    # the witnesses of the two listed findings, on the real code
     stale_i = cases.index(STALE_CASE)
     aba_i = cases.index(ABA_CASE)
-    stale_hit = any(c == STALE_CASE for c, _, _ in known_stale)
-    aba_hit = any(c == ABA_CASE for c, _, _ in known_aba)
 
     # whole library
     lib_fail, lib_stats, lib_runs = [], [], 0
@@ -713,8 +770,9 @@ def run(ctx):
             lib_fail.append(("stale", out[-300:], "myth_key_delete of a live key returned %d" % d1))
         else:
             stale_lib = (k1 == k2 and got == 777)
-            if got != 0 and not stale_lib:
-                lib_fail.append(("stale", out[-300:], "getspecific under a fresh key returned %d" % got))
+            if got != 0 and not (stale_lib and stale_present):
+                lib_fail.append(("stale", out[-300:], "getspecific under a freshly created key returned %d (public API: "
+                                 "create, setspecific 777, delete, create, getspecific)" % got))
         g = re.search(r"guarded k3=(-?\d+) delete=0 k4=(-?\d+) got=(\d+)", out)
         if not g or int(g.group(3)) != 0:
             lib_fail.append(("stale", out[-300:], "a key deleted after its value was reset to NULL reads non-NULL after re-creation"))
@@ -759,13 +817,22 @@ def run(ctx):
                 lib_fail.append((" ".join(map(str, args)), out[-200:],
                                  "with %d creation requests %d succeeded (expected exactly %d)" % (len(res), nok, min(NK, len(res)))))
 
-    labels_ok, ids, lablog = check_labels(ctx)
+    labels_ok, ids, lablog = check_labels(ctx, lock)
 
     # ---- evidence ----
     outs = {}
     for l in impl:
         kk = l.split()[0] if l.split() else "<empty>"
         outs[kk] = outs.get(kk, 0) + 1
+    ctx.cov["variant"] = {
+        "source_has_generation_tags": gen, "source_locks_the_key_free_list": lock, "harness_echo": vline,
+        "witness_C10-key-freelist-aba": "fails (finding present)" if aba_present else "does not fail",
+        "witness_C10-stale-after-recreate": "fails (finding present)" if stale_present else "does not fail",
+        "theorems_that_describe_this_code": [THEOREMS[(lock, "aba")], THEOREMS[(gen, "stale")]],
+        "oracle_strength": {"distinct keys under every controlled schedule": "guarded (ABA window attributed to the listed finding)"
+                            if aba_present else "full",
+                            "fresh key reads NULL in every history": "guarded (stale pattern attributed to the listed finding)"
+                            if stale_present else "full"}}
     ctx.cov["correspondence"] = {
         "cases": len(cases), "disagreements": len(diffs), "input_distribution": kinds,
         "impl_result_distribution": outs, "oracle_failures": len(failing) + len(lib_fail),
@@ -777,47 +844,60 @@ def run(ctx):
         "library_runs": lib_runs + 2, "library_stats": lib_stats[:8],
         "point_ids_in_source": ids, "labels_match_model": labels_ok}
     ctx.cov["evaluations"] = len(cases) + lib_runs + 2
-    ctx.cov["distinct_nontrivial"] = len(set(cases)) - 1
-    for i in (1, len(cases) // 3, 2 * len(cases) // 3, len(cases) - 1, aba_i, stale_i):
-        ctx.cov["samples"].append({"case": cases[i][:300], "impl": (impl[i] if i < len(impl) else None or "")[:300],
-                                   "model": (model[i] if i < len(model) else None or "")[:300]})
+    ctx.cov["distinct_nontrivial"] = len(set(cases)) - 2
+    for i in (2, len(cases) // 3, 2 * len(cases) // 3, len(cases) - 1, aba_i, stale_i):
+        ctx.cov["samples"].append({"case": cases[i][:300], "impl": (impl[i] if i < len(impl) else "")[:300],
+                                   "model": (model[i] if i < len(model) else "")[:300]})
     ctx.cov["trusted_base"] += [
         "extraction: ExtrOcamlBasic only; ocaml/driver_C10.ml, ocaml/zio.ml",
         "harness/c10_tls_unit.c (includes the library's own headers; harness-owned trees and allocator; "
         "real_malloc/real_free wrapped at link time; token-passing controller in g_myth_verif_cb for the lock-step runs)",
         "harness/c10_tls_lib.c (public API on the real runtime); Python oracles in tools/props/c10.py",
-        "translator: POINT ids grepped from src/myth_tls_func.h, compared with label_of by a generated Coq example",
-        "modelled, not verified: malloc never fails and returns memory disjoint from the thread descriptor; the two "
-        "stores after a successful CAS in key_alloc are one step with the CAS (no POINT between them); sequentially "
-        "consistent memory for the free-list head; values/keys are machine integers without overflow in the index arithmetic"]
+        "variant selection: tools/props/c10.py greps src/myth_tls_func.h (signature of myth_tls_tree_get, spin lock in "
+        "key_allocator_alloc) to pick harness compile flags and model variant; the presence of each finding is decided "
+        "by running its witness on the code, not by the grep",
+        "translator: hook ids grepped from src/myth_tls_func.h (and src/myth_spinlock_func.h), compared with the model's "
+        "labels by a generated Coq example",
+        "modelled, not verified: malloc never fails and returns memory disjoint from the thread descriptor; sequentially "
+        "consistent memory for the free-list head / the lock word; " +
+        ("everything between the lock's CAS and its release is executed by the lock owner only (proved: C10_distinct_concurrent), "
+         "the memory barriers of myth_spin_lock/unlock are what makes this true on real hardware"
+         if lock else
+         "the two stores after a successful CAS in key_alloc are one step with the CAS (no POINT between them)") +
+        ("; the generation is an unsigned int: fewer than 2^32 - 1 operations (C10_fresh_key_null)" if gen else "")]
 
     # ---- verdicts ----
-    if known_stale:
+    if stale_present:
         if "C10-stale-after-recreate" in listed:
             ctx.known("stale value after key delete + re-create: getspecific under the re-created key returns the value stored "
-                      "under the old incarnation (unit witness %s; %d generated histories; public API: %s)" %
-                      ("reproduced" if stale_hit else "NOT reproduced", len(known_stale),
-                       "reproduced" if stale_lib else "not reproduced"))
+                      "under the old incarnation (unit witness fails; %d generated histories show the pattern; public API: %s)" %
+                      (len(known_stale), "reproduced" if stale_lib else "not reproduced"))
         else:
-            ctx.notes.append("stale-value pattern observed in %d histories (finding not listed; kept quiet)" % len(known_stale))
-    elif stale_lib:
-        if "C10-stale-after-recreate" in listed:
-            ctx.known("stale value after key delete + re-create (public API witness only)")
+            ctx.violation("oracle", "a freshly created key does not read NULL: " + (oracle_sys(STALE_CASE, stale_out)[0] or ""),
+                          {"case": STALE_CASE, "observed": stale_out, "expected": "last value 0 (a thread that never stored under "
+                           "this key reads NULL)", "level": "unit", "finding": "C10-stale-after-recreate (not listed in known_findings.json)",
+                           "histories_with_the_pattern": len(known_stale)}, found=True)
     else:
-        ctx.notes.append("witness C10-stale-after-recreate no longer fails on this tree (library repaired?)")
-    if known_aba:
+        ctx.notes.append("witness of C10-stale-after-recreate does not fail on this tree: full-strength oracle (a fresh key reads "
+                         "NULL in every generated history) and theorem C10_fresh_key_null")
+    if aba_present:
         if "C10-key-freelist-aba" in listed:
             ctx.known("key free-list ABA: a create preempted between key.alloc.readnext and key.alloc.cas lets the same key be "
-                      "handed out twice / installs the live mark as list head (3-thread witness %s under the controller; "
-                      "%d generated schedules entered the window and broke distinctness)" %
-                      ("reproduced" if aba_hit else "NOT reproduced", len(known_aba)))
+                      "handed out twice / installs the live mark as list head (3-thread witness fails under the controller; "
+                      "%d generated schedules entered the window and broke distinctness)" % len(known_aba))
         else:
-            ctx.notes.append("ABA pattern observed in %d schedules (finding not listed; kept quiet)" % len(known_aba))
+            ctx.violation("oracle", "keys handed out are not pairwise distinct: " + (oracle_conc(ABA_CASE, aba_out)[0] or ""),
+                          {"case": ABA_CASE, "observed": aba_out, "expected": "every create returns a key nobody holds",
+                           "level": "unit (lock step under the hook controller)",
+                           "finding": "C10-key-freelist-aba (not listed in known_findings.json)",
+                           "schedules_with_the_pattern": len(known_aba)}, found=True)
     else:
-        ctx.notes.append("witness C10-key-freelist-aba no longer fails on this tree (library repaired?)")
+        ctx.notes.append("witness of C10-key-freelist-aba does not fail on this tree: full-strength oracle (distinct live keys under "
+                         "every controlled schedule) and theorem " + ("C10_distinct_concurrent" if lock else
+                         "C10_distinct_concurrent_partial (the source does not take a lock: the model is still the lock-free one)"))
     if repaired:
-        ctx.notes.append("%d case(s) where the model shows a listed finding and the implementation does not: the model "
-                         "describes the unrepaired code" % len(repaired))
+        ctx.notes.append("%d case(s) where the model shows a finding and the implementation does not: the source variant was "
+                         "not recognised (model describes the unrepaired code)" % len(repaired))
 
     if failing:
         c, o, msg = failing[0]
@@ -830,33 +910,45 @@ def run(ctx):
     elif diffs:
         i, c, a, b = diffs[0]
         ctx.violation("correspondence", "model and implementation disagree on %d case(s); first: %s" % (len(diffs), c[:200]),
-                      {"theorem_or_correspondence": "correspondence Tls/Tls{Tree,Keys,Sys}Model.v <-> src/myth_tls_func.h",
+                      {"theorem_or_correspondence": "correspondence Tls/Tls{Tree,Keys,KeysLock,Sys}Model.v <-> src/myth_tls_func.h",
                        "case": c, "observed": a[:2000], "expected": b[:2000],
                        "all": [(x[1][:200], x[2][:200], x[3][:200]) for x in diffs[:20]]}, found=False)
     if not labels_ok:
-        ctx.violation("generated-data", "the MYTH_VERIF_POINT ids of src/myth_tls_func.h (%s) are not the model's step labels" % ids,
+        ctx.violation("generated-data", "the MYTH_VERIF hook ids of the source (%s) are not the model's step labels" % ids,
                       {"theorem_or_correspondence": "labels_match (generated)", "log": lablog}, found=False)
     if broken:
         ctx.violation("proof", "theorem(s) no longer check: " + ", ".join(broken),
                       {"theorem_or_correspondence": ", ".join(broken), "log": getattr(ctx, "proof_log", log[-3000:])}, found=False)
-    return ctx.finish(assumptions=[
-        "a tree is accessed only by its owning thread (it is a field of the thread descriptor)",
-        "usage contract of the concurrent model: two threads are not inside key_delete of the same key at once",
-        "C10_distinct_concurrent_partial: schedules without a successful key.dealloc.cas of key k while a create waits at key.alloc.cas with operand k",
-        "C10_fresh_key_null_partial: keys are deleted only when no thread holds a non-NULL value under them; stores only under live keys"])
+    assume = ["a tree is accessed only by its owning thread (it is a field of the thread descriptor)"]
+    if lock:
+        assume.append("C10_distinct_concurrent: no usage contract; sequentially consistent lock word")
+    else:
+        assume += ["usage contract of the lock-free model: two threads are not inside key_delete of the same key at once",
+                   "C10_distinct_concurrent_partial: schedules without a successful key.dealloc.cas of key k while a create "
+                   "waits at key.alloc.cas with operand k"]
+    if gen:
+        assume.append("C10_fresh_key_null: fewer than 2^32 - 1 operations (32-bit generation counter)")
+    else:
+        assume.append("C10_fresh_key_null_partial: keys are deleted only when no thread holds a non-NULL value under them; "
+                      "stores only under live keys")
+    return ctx.finish(assumptions=assume)
 
 
 def replay(ctx, path):
     body = json.load(open(path))
-    unit, libexe, drv = build(ctx)
+    gen, lock = source_variant()
+    VARIANT["gen"], VARIANT["lock"] = gen, lock
+    unit, libexe, drv = build(ctx, gen=gen, lock=lock)
+    v = "variant %d %d" % (int(gen), int(lock))
     if "case" in body:
         c = body["case"]
-        impl, _, _ = vlib.run_lines([unit], [c])
-        model, _, _ = vlib.run_lines([drv], [c])
+        impl, _, _ = vlib.run_lines([unit], [v, c])
+        model, _, _ = vlib.run_lines([drv], [v, c])
+        print("variant:", impl[0] if impl else None, "(generation tags, locked free list)")
         print("case:  ", c[:2000])
-        print("impl:  ", (impl[0] if impl else None))
-        print("model: ", (model[0] if model else None))
-        print("oracle:", oracle_unit(c, impl[0] if impl else "<no output>")[0] if c.split()[0] != "consts" else None)
+        print("impl:  ", (impl[1] if len(impl) > 1 else None))
+        print("model: ", (model[1] if len(model) > 1 else None))
+        print("oracle:", oracle_unit(c, impl[1] if len(impl) > 1 else "<no output>")[0] if c.split()[0] not in ("consts", "variant") else None)
     elif "lib_args" in body:
         rc, out = run_lib(ctx, libexe, body["lib_args"].split())
         print("library run:", body["lib_args"])
